@@ -11,6 +11,10 @@ from vlib import REPO, VERIF, Verdict, build, run_shards
 def gen_symbols(outdir):
     parts = []
     meta = {}
+    # link targets as recorded at the pinned release: an independent record, so that a consistent hand edit of the generated
+    # .h comment and .cpp reference is still seen (used only while the shipped files state the same TZ version)
+    base = json.loads((VERIF / "data" / "links_baseline.json").read_text())
+    meta["link_edits"] = []
     for db, ns, tag in (("zonedb", "basic", "Basic"), ("zonedbx", "extended", "Ext")):
         d = srcparse.parse_zone_infos_h(REPO / "src" / "ace_time" / db / "zone_infos.h")
         meta[db] = d
@@ -25,7 +29,12 @@ def gen_symbols(outdir):
         parts.append("struct Link%s { const char* link; const char* target; const %s::ZoneInfo* linkzi; const %s::ZoneInfo* targetzi; };"
                      % (tag, ns, ns))
         parts.append("static const Link%s kLinks%s[] = {" % (tag, tag))
+        same_version = ("tag/%s" % base["tz_version"]) in (REPO / "src" / "ace_time" / db / "zone_infos.h").read_text()
         for sym, link, target in d["links"]:
+            bt = base["links"].get(db, {}).get(link) if same_version else None
+            if bt is not None and bt != target:
+                meta["link_edits"].append({"db": db, "link": link, "header_says": target, "release_record": bt})
+                target = bt            # the compiled comparison below is made against the release record
             tsym = name2sym.get(target)
             parts.append('  {"%s", "%s", &%s::%s, %s},' % (link, target, db, sym,
                                                            ("&%s::%s" % (db, tsym)) if tsym else "nullptr"))
@@ -38,6 +47,8 @@ def run(tier):
     v = Verdict("C11", tier)
     out = vlib.scratch()
     meta = gen_symbols(out)
+    for e in meta.pop("link_edits"):
+        v.violation("c11:link-target-differs-from-release-record", "a shipped link names a different target zone than the record of the same TZ release", e)
     exe = build(VERIF / "native" / "registry.cpp", "sanrec", defines=["VERIF_HAVE_SYMBOLS=1"], includes=[out])
     r = run_shards(exe, [["--mode", "c11"]], san="rec", timeout=1800)
     v.absorb(r, "c11")
